@@ -147,7 +147,7 @@ def every_arm_completes(P, res, rule="EVERY-ARM-COMPLETES"):
                     "expression is never seen in a `done` state and eval-up-to runs past it" % p_, g.loc(g.blocks[short[0]]["stmts"][0].get("span")))
         else:
             res.ok(rule, "%s: every Ok path schedules the expression again (%d Ok exits)" % (p_, len(oks)))
-    res.floor(rule, "fallible stepper helpers", nh, 2)
+    res.extra["fallible_stepper_helpers"] = nh      # no floor: inlining such a helper into its arm moves the obligation to the arm rule above
 
 
 CHILD_TYPES = ("parser::ast::Expression", "parser::ast::Block", "parser::ast::FunInfo", "parser::ast::ParenthesizedArguments",
